@@ -267,6 +267,9 @@ def execute(run, binpath, tmp, idx):
             i = stderr.find("WARNING: ThreadSanitizer")
             run.stderr_tail = stderr[i:i + 5000]
             return
+        if np_ and not getattr(run, "tsan_judged", True):
+            np_ = 0  # counted in the evidence (tsan_payload_reports_outside_statement), not a verdict for this property
+            run.tsan_info = getattr(run, "tsan_payload", 0)
         if np_:
             run.outcome = "sanitizer"
             run.san_key = "tsan:payload-race"
@@ -368,6 +371,7 @@ def finish_check(prop, tier, seed, runs, t0, rule, min_events, assumptions, extr
     inconclusive = []
     failures = []
     tsan_internal = 0
+    tsan_info = 0
     for r in runs:
         res = r.result or {}
         for k, v in res.get("counters", {}).items():
@@ -393,6 +397,7 @@ def finish_check(prop, tier, seed, runs, t0, rule, min_events, assumptions, extr
             if len(notes) < 12:
                 notes.append(s)
         tsan_internal += getattr(r, "tsan_total", 0) - getattr(r, "tsan_payload", 0)
+        tsan_info += getattr(r, "tsan_info", 0)
         if r.outcome == "violation":
             for v in res.get("violations", []):
                 viols.append((v["prop"], v["key"], v["detail"], r))
@@ -429,6 +434,7 @@ def finish_check(prop, tier, seed, runs, t0, rule, min_events, assumptions, extr
                runs=[dict(r.describe(), outcome=r.outcome, wall_s=round(getattr(r, "wall", 0), 2)) for r in runs],
                process_runs=len(runs), client_operations=int(client_ops), notes=notes,
                tsan_library_internal_reports_not_judged=tsan_internal,
+               tsan_payload_reports_outside_statement=tsan_info,
                known_findings_observed=[dict(property=a, key=b) for (a, b) in known_hits],
                inconclusive_runs=len(inconclusive))
     if extra_cov:
